@@ -144,7 +144,7 @@ TemperatureCalculator:
 
 def ion_param(outdir, ncell=(16, 16, 16), nsub=(2, 2, 2), periodic=(False, False, False), nphoton=10000, niter=2,
               discrete=True, continuous=False, diffuse=False, copy_level=1, density="100. cm^-3", seed=42,
-              reem_prob=0.364, nbuffers=4000, ntasks=40000, extra="", xh=2.0e-4, luminosity=1.0e46):
+              reem_prob=0.364, nbuffers=4000, ntasks=40000, extra="", xh=2.0e-4, luminosity=1.0e46, nsources=1):
     """Parameter file for the task-based photoionization simulation."""
     os.makedirs(outdir, exist_ok=True)
     bl = lambda v: "true" if v else "false"
@@ -236,12 +236,22 @@ CrossSections:
 """ % dict(p0=bl(periodic[0]), p1=bl(periodic[1]), p2=bl(periodic[2]), nc0=ncell[0], nc1=ncell[1], nc2=ncell[2],
            ns0=nsub[0], ns1=nsub[1], ns2=nsub[2], density=density, xh=xh, nphoton=nphoton, niter=niter, copy=copy_level,
            diffuse=bl(diffuse), nbuffers=nbuffers, ntasks=ntasks, seed=seed, dir=outdir, extra=extra,
-           dsrc=("PhotonSourceDistribution:\n  type: SingleStar\n  position: [0.3 pc, -0.2 pc, 0.1 pc]\n"
-                 "  luminosity: %r s^-1\n" % luminosity) if discrete else "PhotonSourceDistribution:\n  type: None\n",
+           dsrc=(("PhotonSourceDistribution:\n  type: SingleStar\n  position: [0.3 pc, -0.2 pc, 0.1 pc]\n"
+                  "  luminosity: %r s^-1\n" % luminosity) if nsources == 1 else
+                 ("PhotonSourceDistribution:\n  type: AsciiFile\n  filename: %s/sources.yml\n" % outdir))
+           if discrete else "PhotonSourceDistribution:\n  type: None\n",
            csrc=("ContinuousPhotonSource:\n  type: Isotropic\n\nContinuousPhotonSourceSpectrum:\n  type: Monochromatic\n"
                  "  frequency: 3.28847e+15 Hz\n  total flux: 1.e8 m^-2 s^-1\n") if continuous else "",
            diff=("DiffuseReemissionHandler:\n  type: FixedValue\n  reemission probability: %r\n"
                  "  reemission frequency: 13.7 eV\n" % reem_prob) if diffuse else "")
+    if discrete and nsources > 1:
+        spos = [(0.3, -0.2, 0.1), (-2.6, 2.4, -1.1), (3.3, 3.4, 2.7), (-3.9, -3.1, 4.2), (1.2, -4.4, -2.3)][:nsources]
+        slum = [1., 2., 5., 3., 7.][:nsources]
+        y = "number of sources: %d\n\n" % nsources
+        for i in range(nsources):
+            y += "source[%d]:\n  position: [%r pc, %r pc, %r pc]\n  luminosity: %r s^-1\n\n" % (
+                (i,) + spos[i] + (luminosity * slum[i] / sum(slum),))
+        open(os.path.join(outdir, "sources.yml"), "w").write(y)
     path = os.path.join(outdir, "ion.param")
     open(path, "w").write(p)
     return path
